@@ -85,16 +85,37 @@ func posOf(state string) string {
 func genCluster(c *Ctx) error {
 	c.Stats.Rule = "clusters of 2-3 real stores with HTTP servers and a scripted lease service: pager-simulator histories on the current primary (rollback journal and WAL, grow/shrink, LZ4 on/off by suite flag), replicas joining fresh / lagging / behind a retention cut, disconnects and reconnects, graceful restarts, primary changes with and without unreplicated writes (forks of any length, ahead / same TXID other checksum / behind). After every step each live node reports position, decoded log and a from-scratch image. Non-trivial = at least 3 commits and one of: reconnect after lag, primary change, restart; distinct = distinct step signature."
 	r := c.Rng
-	nHist := 12
+	nHist := 40
 	if c.Tier == "thorough" {
-		nHist = 160
+		nHist = 300
 	}
-	for h := 0; h < nHist; h++ {
+	directed := [][]string{
+		// a node that created transactions, was reset to an older position by a snapshot and then
+		// meets a primary that still has its files
+		{"n3", "tx", "tx", "tx", "net 2 off", "tx", "tx", "net 1 off", "elect 2", "elect 1", "tx"},
+		// former primary with unreplicated writes: ahead, same TXID other checksum, behind
+		{"n2", "tx", "tx", "net 1 off", "tx", "tx", "elect 1", "tx"},
+		{"n2", "tx", "tx", "net 1 off", "tx", "elect 1", "tx", "net 0 off", "tx", "tx", "net 0 on"},
+		{"n3", "tx", "net 1 off", "net 2 off", "tx", "tx", "elect 1", "tx", "tx", "tx", "net 2 on", "retain", "net 0 off", "tx", "net 0 on"},
+		// replica behind a retention cut
+		{"n2", "tx", "tx", "net 1 off", "tx", "tx", "tx", "retain", "net 1 on", "tx"},
+		// restarts
+		{"n2", "tx", "tx", "restart 1", "tx", "restart 0", "tx"},
+	}
+	for h := 0; h < nHist+len(directed); h++ {
+		var script []string
+		if h < len(directed) {
+			script = directed[h]
+		}
 		ps := pick(r, []int{512, 1024, 4096})
 		if r.Chance(1, 8) {
 			ps = pick(r, []int{8192, 65536})
 		}
 		nNodes := r.Range(2, 3)
+		if script != nil {
+			nNodes = int(script[0][1] - '0')
+			script = script[1:]
+		}
 		cs := c.Begin()
 		var sig strings.Builder
 		fmt.Fprintf(&sig, "n=%d,ps=%d", nNodes, ps)
@@ -154,16 +175,9 @@ func genCluster(c *Ctx) error {
 					continue
 				}
 				st := do(fmt.Sprintf("n %d state", k))
-				do(fmt.Sprintf("n %d ltx", k))
-				raw := do(fmt.Sprintf("n %d raw", k))
-				if strings.Contains(st, "exit=") {
-					c.Fail(fmt.Sprintf("history %d %s: node %d exited: %s", h, what, k, st))
-					failed = true
-					continue
-				}
 				pos := posOf(st)
-				if k == primary {
-					ppos = pos
+				if k == primary && !strings.Contains(st, "exit=") {
+					// the primary's position and what SQLite sees there (pager reference)
 					p := nodes[k].p
 					if pos != "" && !strings.HasPrefix(pos, "0:") {
 						if _, ok := hist[pos]; !ok {
@@ -174,6 +188,16 @@ func genCluster(c *Ctx) error {
 							do(fmt.Sprintf("hist %s %s", pos, p.refImageDigest()))
 						}
 					}
+				}
+				do(fmt.Sprintf("n %d ltx", k))
+				raw := do(fmt.Sprintf("n %d raw", k))
+				if strings.Contains(st, "exit=") {
+					c.Fail(fmt.Sprintf("history %d %s: node %d exited: %s", h, what, k, st))
+					failed = true
+					continue
+				}
+				if k == primary {
+					ppos = pos
 				} else if nodes[k].net && pos != ppos && ppos != "" && !strings.HasPrefix(ppos, "0:") {
 					c.Fail(fmt.Sprintf("history %d %s: connected node %d at %s, primary at %s", h, what, k, pos, ppos))
 				}
@@ -193,18 +217,41 @@ func genCluster(c *Ctx) error {
 		observe("start")
 		do(fmt.Sprintf("n %d createdb", primary))
 		steps := r.Range(6, 16)
+		if script != nil {
+			steps = len(script)
+		}
 		for i := 0; i < steps && !failed; i++ {
 			what := fmt.Sprintf("step %d", i)
 			P := nodes[primary]
-			switch k := r.Intn(20); {
+			k, arg := r.Intn(20), -1
+			if c.Flag("diverge") && r.Bool() {
+				k = pick(r, []int{10, 11, 14, 15, 12}) // more disconnects, primary changes, retention cuts
+			}
+			if script != nil {
+				f := strings.Fields(script[i])
+				if len(f) > 1 {
+					arg = int(f[1][0] - '0')
+				}
+				k = map[string]int{"tx": 0, "net": 10, "retain": 12, "elect": 14, "restart": 16}[f[0]]
+			}
+			choose := func() int {
+				if arg >= 0 {
+					return arg
+				}
+				return r.Intn(nNodes)
+			}
+			switch {
 			case k < 10: // application work on the primary
 				ok, s := pagerStep(c, P.p, maxGrow)
+				for script != nil && !ok { // scripted: insist on a commit
+					ok, s = pagerStep(c, P.p, maxGrow)
+				}
 				if ok {
 					commits++
 				}
 				sig.WriteString("," + s)
 			case k < 12: // a replica loses / regains its connection
-				x := r.Intn(nNodes)
+				x := choose()
 				if x == primary || !nodes[x].up {
 					continue
 				}
@@ -220,7 +267,7 @@ func genCluster(c *Ctx) error {
 				c.Count("retain")
 				sig.WriteString(",ret")
 			case k < 16 && commits > 0: // primary change
-				x := r.Intn(nNodes)
+				x := choose()
 				if x == primary || !nodes[x].up {
 					continue
 				}
@@ -254,7 +301,7 @@ func genCluster(c *Ctx) error {
 					continue
 				}
 			case k < 18 && commits > 0: // graceful restart of a node
-				x := r.Intn(nNodes)
+				x := choose()
 				if !nodes[x].up {
 					continue
 				}
